@@ -15,7 +15,7 @@ import os
 import random
 
 import vlib
-from engines import l2gen
+from engines import l2gen, sideplug
 from engines.memalloc import split_trace, validate_chunks
 
 PROPS = ["C01", "C02", "C03", "C04", "C05", "C09", "C11", "C12", "C13", "C14"]
@@ -234,6 +234,8 @@ def run(ctx):
         tp = l2gen.run_histories(binp, hs, ctx.path("replay"), shards=1)
         r = vlib.validate_trace("Trace_L2", "Trace_L2.cfg", tp, ctx.path("tv-replay"), timeout=600)
         vs = [v for v in r["viols"] if v["pred"] in PREDS[pid]]
+        if pid == "C14" and rp["replay"].get("side"):       # side plugins (memory-qos, memtierd, sgx-epc): engines/sideplug.py
+            vs += sideplug.run_side(ctx, rp["replay"]["side"])[0]
         for v in vs:
             print("replayed violation:", json.dumps(v))
         return vlib.verdict(ctx, vs, "model_checking", {"states": 1, "transitions": 1, "traces_validated_against_impl": len(hs),
@@ -295,6 +297,11 @@ def run(ctx):
                    "abstract states reached by the real code" % pid,
            "exercised": {k: v for k, v in st.items() if k != "distinct_states"}, "predicates": sorted(PREDS[pid]),
            "drift_steps": drift, "samples": sample or [{"note": "no successful create in trace"}], "exhaustive": False}
+    if pid == "C14":    # event sequences on the side plugins (memory-qos, memtierd, sgx-epc): engines/sideplug.py
+        sv, cov["side_plugins"] = sideplug.run_side(ctx)
+        mine = mine + sv
+        if sv:
+            payload = dict(payload or {"histories": []}, side=ctx.side_replay)
     return vlib.verdict(ctx, mine, "model_checking", cov,
                         ["TLC and the Json community module", "the harness projects state through cache getters and the read-only "
                          "verif snapshot accessors of the policies", "the runtime view is folded by the trace spec from the replies "
